@@ -8,6 +8,9 @@ import (
 	sdk "github.com/cosmos/cosmos-sdk/types"
 
 	"github.com/unification-com/mainchain/app"
+	"github.com/unification-com/mainchain/x/beacon"
+	"github.com/unification-com/mainchain/x/enterprise"
+	"github.com/unification-com/mainchain/x/wrkchain"
 	undcmd "github.com/unification-com/mainchain/cmd/und/cmd"
 	undtypes "github.com/unification-com/mainchain/types"
 	enttypes "github.com/unification-com/mainchain/x/enterprise/types"
@@ -284,6 +287,34 @@ func H_C19_WiringConvertCmd() {
 	if err == nil && werr == nil {
 		rt.Assert("C19.cli-prints-the-exact-conversion-of-its-arguments", rt.StrEq(out, amt+from+" = "+want+"\n"))
 		rt.Reach("converted")
+	}
+	rt.Reach("end")
+}
+
+// H_C16_WiringMigrations: the upgrade path that carries the parameters of enterprise / wrkchain /
+// beacon from the legacy x/params subspaces into the module stores is wired to the right places:
+// each module is constructed with ITS OWN subspace (the three Params types have identical field
+// layouts for wrkchain and beacon, so a mix-up reads plausible values), registers its migration
+// from consensus version 2, and declares consensus version 3. Native face: the real module
+// manager's RunMigrations from version 2 on the real application.
+func H_C16_WiringMigrations() {
+	for _, m := range []string{"enterprise", "wrkchain", "beacon"} {
+		rt.Assert("C16.module-migrates-from-its-own-legacy-subspace", rtw.ModuleLegacySubspace(m) == m)
+	}
+	rt.Assert("C16.consensus-version-3", enterprise.AppModule{}.ConsensusVersion() == 3 && wrkchain.AppModule{}.ConsensusVersion() == 3 && beacon.AppModule{}.ConsensusVersion() == 3)
+	if rtw.Static() {
+		for _, m := range []string{"enterprise", "wrkchain", "beacon"} {
+			args := rtw.StaticCallConstArgs("(github.com/unification-com/mainchain/x/"+m+".AppModule).RegisterServices", "invoke:RegisterMigration")
+			rt.Assert("C16.migration-registered-from-version-2", len(args) == 3 && args[0] == "\""+m+"\"" && args[1] == "2")
+		}
+	} else {
+		for _, m := range []string{"enterprise", "wrkchain", "beacon"} {
+			res := rtw.ProbeUpgradeMigration(m)
+			if res != "ok" {
+				println("upgrade probe", m, ":", res)
+			}
+			rt.Assert("C16.migration-registered-from-version-2", res == "ok")
+		}
 	}
 	rt.Reach("end")
 }
